@@ -40,7 +40,13 @@ type htask struct {
 
 // declOf is the task's file-dependency declaration as written.
 func declOf(t *htask) string {
-	return "L:" + strings.Join(t.Lits, ",") + "|G:" + strings.Join(t.Globs, ",")
+	// (as multisets: the order in which dependencies are listed does not change the set of paths
+	// they name; how often one is listed may - cf. duplicates in C04)
+	l := append([]string{}, t.Lits...)
+	g := append([]string{}, t.Globs...)
+	sort.Strings(l)
+	sort.Strings(g)
+	return "L:" + strings.Join(l, ",") + "|G:" + strings.Join(g, ",")
 }
 
 // which tasks C02 is demanded of in a judged run
@@ -177,8 +183,8 @@ func (sb *sandbox) spokfileText(s hshape) string {
 					work += fmt.Sprintf(" && cp %s %s", filepath.Join(sb.Proj, cp[0]), filepath.Join(sb.Proj, cp[1]))
 				}
 			}
-			fmt.Fprintf(&b, "    printf '%%s\\n' %s.%d.start >> %s && test ! -e %s/kill.%s.%d || kill -9 $$ && test ! -e %s/fail.%s.%d%s && printf '%%s\\n' %s.%d.ok >> %s\n",
-				tagOf(t.Name), i, sb.Log, sb.Flags, tagOf(t.Name), i, sb.Flags, tagOf(t.Name), i, work, tagOf(t.Name), i, sb.Log)
+			fmt.Fprintf(&b, "    printf '%%s\\n' %s.%d.start >> %s && test ! -e %s/kill.%s.%d || kill -\"$(cat %s/kill.%s.%d)\" $$ && test ! -e %s/fail.%s.%d%s && printf '%%s\\n' %s.%d.ok >> %s\n",
+				tagOf(t.Name), i, sb.Log, sb.Flags, tagOf(t.Name), i, sb.Flags, tagOf(t.Name), i, sb.Flags, tagOf(t.Name), i, work, tagOf(t.Name), i, sb.Log)
 		}
 		b.WriteString("}\n\n")
 	}
@@ -299,6 +305,10 @@ func (o hop) String() string {
 		return "rm -rf .spok"
 	case "rmcachefile":
 		return "rm .spok/cache.json"
+	case "tamper":
+		return "overwrite every digest in .spok/cache.json with the word DIFFERENT"
+	case "rmtag":
+		return "rm .spok/CACHEDIR.TAG .spok/.gitignore"
 	case "chmod":
 		return "chmod (toggle +x) " + o.File
 	case "link":
@@ -392,7 +402,31 @@ func (sb *sandbox) applyOnDisk(op hop) {
 		_ = os.RemoveAll(filepath.Join(sb.Proj, ".spok"))
 	case "rmcachefile":
 		_ = os.Remove(filepath.Join(sb.Proj, ".spok", "cache.json"))
+	case "tamper":
+		p := filepath.Join(sb.Proj, ".spok", "cache.json")
+		if b, err := os.ReadFile(p); err == nil {
+			_ = os.WriteFile(p, []byte(tamperCache(string(b))), 0o644)
+		}
+	case "rmtag":
+		_ = os.Remove(filepath.Join(sb.Proj, ".spok", "CACHEDIR.TAG"))
+		_ = os.Remove(filepath.Join(sb.Proj, ".spok", ".gitignore"))
 	}
+}
+
+// tamperCache replaces every recorded digest by a word that is not a digest (what a cache written by
+// another version, or edited by hand, may hold): valid JSON, and nothing any task is up to date with.
+func tamperCache(c string) string {
+	var m map[string]string
+	if json.Unmarshal([]byte(c), &m) != nil {
+		return c
+	}
+	for k, v := range m {
+		if v != "" {
+			m[k] = "DIFFERENT"
+		}
+	}
+	b, _ := json.Marshal(m)
+	return string(b)
 }
 
 // readBack reads files and cache from the project directory into st.
@@ -899,6 +933,17 @@ func applyEdit(st *hstate, op hop) {
 	case "write":
 		st.Files[op.File] = op.Value
 		delete(st.Modes, op.File) // (re)written files are plain 644 files
+	case "tamper":
+		// the records are gone as far as any task is concerned, the file is still there
+		if st.Cache != nil {
+			c := tamperCache(*st.Cache)
+			st.Cache = &c
+		}
+		st.Model = map[string]string{}
+		st.LastFail = map[string]string{}
+		st.Forced = map[string]string{}
+	case "rmtag":
+		// (only in-place histories see this: the other files of .spok are re-created with the cache otherwise)
 	case "rmcachefile":
 		// only the cache file goes, the directory stays: the cache has been removed all the same
 		if st.Cache != nil {
@@ -931,7 +976,7 @@ func editOps(s hshape, values []string) []hop {
 		}
 		ops = append(ops, hop{Kind: "delete", File: f})
 	}
-	ops = append(ops, hop{Kind: "rmcache"}, hop{Kind: "rmcachefile"})
+	ops = append(ops, hop{Kind: "rmcache"}, hop{Kind: "rmcachefile"}, hop{Kind: "tamper"})
 	if len(s.Files) > 0 && len(s.Tasks) <= 2 && len(s.Files) <= 2 {
 		ops = append(ops, hop{Kind: "chmod", File: s.Files[0]}) // permissions are not part of a task's inputs
 	}
